@@ -339,8 +339,8 @@ def main(tier, replay=None):
             stream("corpus", ["corpus", corpus, "@OUT", "8", "mini"], 600, 1)
             stream("corpus_full", ["corpus", corpus, "@OUT", "8", "full"], 600, 0)
         if thorough:
-            stream("random", ["run", str(seed()), "4000", "12", "@OUT", "16", "mini"], 2400, 400)
-            stream("random_short", ["run", str(seed() + 1000), "2000", "4", "@OUT", "16", "mini"], 1200, 0)
+            stream("random", ["run", str(seed()), "3000", "12", "@OUT", "16", "mini"], 2400, 400)
+            stream("random_short", ["run", str(seed() + 1000), "1500", "4", "@OUT", "16", "mini"], 1200, 0)
             stream("random_full", ["run", str(seed() + 2000), "200", "8", "@OUT", "16", "full"], 2400, 0)
         else:
             stream("random", ["run", str(seed()), "600", "8", "@OUT", "16", "mini"], 900, 60)
